@@ -14,7 +14,11 @@ pub fn more() -> Vec<PropDef> {
             id: "C01",
             rule: "four producers: (a) Registry histories (register_type / register_types / map_into_portable, 0..24 ops) over the run-time programmable type family (16 nodes x 44 wrapper shapes, generated cyclic graph specs), invariant checked on Registry::types() after every op; (b) PortableRegistryBuilder histories under the documented reference discipline; (c) retain(mask) on the results and on generated well-formed registries; (d) decode(encode) / from_json(to_json) of each; oracle = id == index, resolve positional and total, every reference < n; non-trivial = at least 2 entries and at least one reference, distinct by (producer, encoding, ops)",
             assumptions: &["builder histories reference only ids already handed out or the announced next_type_id (the documented self-reference idiom)", "Rust types cannot be created at run time: type graphs come from a family of 16 const-generic node types whose type_info() is programmed per case"],
-            subs: crate::p_hist::c01_subs,
+            subs: || {
+                let mut v = crate::p_hist::c01_subs();
+                v.extend(crate::fuzz_entry::fuzz_subs("C01"));
+                v
+            },
             extra: None,
         },
         PropDef {
